@@ -18,7 +18,7 @@ package vaa
 // ---------------------------------------------------------------- serialization (C04, C05)
 
 //@ func MustWrite(w io.Writer, order binary.ByteOrder, data interface{})
-//@   props C04 C05
+//@   props C04 C05 C06
 //@   requires [buffer] isBuffer(w)
 //@   requires [fixed-size] boxsize(data) == 1 || boxsize(data) == 2 || boxsize(data) == 4 || boxsize(data) == 8
 //@   ensures  [appended] bufOf(w) == appendbe(old(bufOf(w)), boxsize(data), boxint(data))
@@ -27,14 +27,14 @@ package vaa
 //@   nopanic
 
 //@ func (v *VAA) serializeBody() (out []byte)
-//@   props C04 C05
+//@   props C04 C05 C06
 //@   requires v != nil
 //@   ensures  [layout] out == bodyOf(v)
 //@   modifies fresh lib:bytes.Buffer.b
 //@   nopanic
 
 //@ func (v *VAA) SigningMsg() (h common.Hash)
-//@   props C04 C06
+//@   props C04 C05 C06
 //@   requires v != nil
 //@   ensures  [double-keccak] h == digestOf(v)
 //@   modifies fresh lib:bytes.Buffer.b
@@ -52,20 +52,20 @@ package vaa
 //@ pred specVerify(v *VAA, a []common.Address) = forall i in 0..len(v.Signatures) :: sigOK(v, a, i)
 
 //@ lemma sig_index_lower(v *VAA, a []common.Address, m int)
-//@   props C06
+//@   props C04 C05 C06
 //@   induction m
 //@   requires specVerify(v, a) && 0 <= m && m < len(v.Signatures)
 //@   ensures  [at-least-position] int(v.Signatures[m].Index) >= m
 
 //@ lemma pigeonhole(v *VAA, a []common.Address)
-//@   props C06
+//@   props C04 C05 C06
 //@   requires specVerify(v, a)
 //@   uses sig_index_lower(v, a, len(v.Signatures) - 1)
 //@   ensures  [no-more-signatures-than-keys] len(v.Signatures) <= len(a)
 
 // On lists without repeated addresses the distinct-signer conjunct follows from the others.
 //@ lemma dup_redundant(v *VAA, a []common.Address, i int, j int)
-//@   props C06
+//@   props C04 C05 C06
 //@   requires 0 <= j && j < i && i < len(v.Signatures)
 //@   requires forall p in 0..len(a) :: forall q in 0..len(a) :: p != q ==> a[p] != a[q]
 //@   requires int(v.Signatures[i].Index) < len(a) && int(v.Signatures[j].Index) < len(a) && int(v.Signatures[j].Index) < int(v.Signatures[i].Index) && 0 <= int(v.Signatures[j].Index)
@@ -74,7 +74,7 @@ package vaa
 //@   ensures  [distinct] signerOf(digestOf(v), v.Signatures[j].Signature) != signerOf(digestOf(v), v.Signatures[i].Signature)
 
 //@ func (v *VAA) VerifySignatures(addresses []common.Address) (ok bool)
-//@   props C06
+//@   props C04 C05 C06
 //@   requires wfVAA(v)
 //@   ensures  [iff] ok <==> specVerify(v, addresses)
 //@   modifies fresh lib:bytes.Buffer.b
@@ -97,7 +97,7 @@ package vaa
 //@   | && (forall k in 0..53+len(v.Payload) :: b[6+66*len(v.Signatures)+k] == bodyOf(v)[k])
 
 //@ func (v *VAA) Marshal() (out []byte, err error)
-//@   props C05
+//@   props C04 C05 C06
 //@   requires wfVAA(v) && len(v.Signatures) <= 255
 //@   ensures  [no-error] err == nil
 //@   ensures  [layout] encodes(out, v)
@@ -117,7 +117,7 @@ package vaa
 //@ pred accepts(b []byte) = len(b) >= 60 + 66*b[5] && b[0] == 1
 
 //@ func Unmarshal(data []byte) (ret *VAA, err error)
-//@   props C05
+//@   props C04 C05 C06
 //@   ensures  [reject-complete] err != nil ==> ret == nil
 //@   ensures  [accept-only-if] err == nil ==> accepts(data)
 //@   ensures  [accept-if] accepts(data) ==> err == nil
@@ -144,7 +144,7 @@ package vaa
 // C04: the Solidity and Ralph parsers read the body at the same offsets (both tables are
 // extracted on every run; encBody is built from the Solidity one).
 //@ lemma offset_tables_agree()
-//@   props C04
+//@   props C04 C05 C06
 //@   ensures [header] sol_hdr_size == ral_hdr_size && sol_sig_size == ral_sig_size
 //@   ensures [chains] sol_off_emitterChain == ral_off_emitterChain && sol_len_emitterChain == ral_len_emitterChain && sol_off_targetChain == ral_off_targetChain && sol_len_targetChain == ral_len_targetChain
 //@   ensures [address] sol_off_emitterAddress == ral_off_emitterAddress && sol_len_emitterAddress == ral_len_emitterAddress
@@ -155,7 +155,7 @@ package vaa
 // C04: two messages whose signing bodies agree byte for byte agree in all eight body fields
 // (timestamps as whole seconds in the 32-bit domain the wire format has).
 //@ lemma body_injective(v1 *VAA, v2 *VAA)
-//@   props C04
+//@   props C04 C05 C06
 //@   requires v1 != nil && v2 != nil
 //@   requires 0 <= unix(v1.Timestamp) && unix(v1.Timestamp) < 4294967296 && 0 <= unix(v2.Timestamp) && unix(v2.Timestamp) < 4294967296
 //@   requires bodyOf(v1) == bodyOf(v2)
@@ -170,14 +170,14 @@ package vaa
 // C05: every encoding of a well-formed VAA of the supported version with a non-empty
 // payload and at most 255 signatures is accepted by the decoder ...
 //@ lemma encoding_accepted(b []byte, v *VAA)
-//@   props C05
+//@   props C04 C05 C06
 //@   requires wfVAA(v) && encodes(b, v) && v.Version == 1 && len(v.Payload) >= 1 && len(v.Signatures) <= 255
 //@   ensures [accepted] accepts(b)
 
 // ... and two VAAs with the same encoding are equal field by field, so decoding the
 // encoding of v (Unmarshal: accept-if, accept-exact) yields a VAA equal to v.
 //@ lemma encoding_injective(b []byte, v1 *VAA, v2 *VAA)
-//@   props C05
+//@   props C04 C05 C06
 //@   requires wfVAA(v1) && wfVAA(v2) && encodes(b, v1) && encodes(b, v2)
 //@   requires len(v1.Signatures) <= 255 && len(v2.Signatures) <= 255
 //@   requires 0 <= unix(v1.Timestamp) && unix(v1.Timestamp) < 4294967296 && 0 <= unix(v2.Timestamp) && unix(v2.Timestamp) < 4294967296
